@@ -12,7 +12,11 @@
        the child's +1 on its target to the disposing thread; becoming somebody's target takes +1 from the hand.
      * at a rest point (API return, start / end of a client callout) the hand is settled (RefsWord!Settle); a
        serial queue without internal targeters ("strict") never has parked references.
-     * the first pusher of an empty list holds +2 before it publishes the head (rdar://6932776).
+     * the first pusher of an empty list holds the +2 it will hand to the wakeup before it publishes the head
+       (rdar://6932776: once the item can be dequeued the pusher may rely on no other reference - the item itself
+       may release the last one).  The only pusher that takes none is a sync waiter: its thread is blocked inside
+       dispatch_sync / dispatch_apply holding the caller's reference for the whole call (identified by the API
+       events of the thread, not by function names).
      * the decrement to -1 (dispose point) must satisfy RefsWord!DisposeOK: external count -1, no reference held
        by the application, no item pending or running, no live targeter, idle dq_state, empty list, no reference
        in flight.  After it, nobody but the disposing thread touches the object (no use after dispose), the
@@ -40,7 +44,7 @@ S0 == [alive |-> [o \in Objs |-> "none"], kind |-> [o \in Objs |-> "none"], stri
        ref |-> [o \in Objs |-> 0], xref |-> [o \in Objs |-> 0], st |-> [o \in Objs |-> StIdle], tnn |-> [o \in Objs |-> FALSE],
        held |-> [o \in Objs |-> 0], busy |-> [o \in Objs |-> 0], targ |-> [o \in Objs |-> 0],
        hand |-> [o \in Objs |-> [t \in Thr |-> 0]], parked |-> [o \in Objs |-> 0], fp |-> [o \in Objs |-> [t \in Thr |-> NoPush]],
-       tgt |-> [o \in Objs |-> -1], fins |-> [o \in Objs |-> 0], dtors |-> [o \in Objs |-> 0], dthr |-> [o \in Objs |-> -1]]
+       insync |-> [t \in Thr |-> FALSE], tgt |-> [o \in Objs |-> -1], fins |-> [o \in Objs |-> 0], dtors |-> [o \in Objs |-> 0], dthr |-> [o \in Objs |-> -1]]
 
 TInit == l = 2 /\ S = S0 /\ err = "" /\ TLCSet(1, 0)
 
@@ -153,13 +157,14 @@ HTail(s, r) ==
     IF s.alive[o] # "live" THEN Out(s, "use after dispose: item list modified after the internal count reached -1")
     ELSE IF s.kind[o] # "lane" THEN Out(s, "")
     ELSE Out([s EXCEPT !.tnn[o] = r.nn,
-                       !.fp[o][r.t] = IF r.first /\ r.f # "_dispatch_queue_push_item" THEN s.hand[o][r.t] ELSE @], "")
+                       !.fp[o][r.t] = IF r.first THEN s.hand[o][r.t] ELSE @], "")
 HHead(s, r) ==
     LET o == r.o t == r.t IN
     IF s.alive[o] # "live" THEN Out(s, "use after dispose: item list modified after the internal count reached -1")
     ELSE IF s.kind[o] # "lane" \/ s.fp[o][t] = NoPush \/ ~r.nn THEN Out(s, "")
     ELSE Out([s EXCEPT !.fp[o][t] = NoPush],
-             IF s.hand[o][t] - s.fp[o][t] >= 2 THEN "" ELSE "first pusher published the head before taking its +2 (the item could be dequeued and the queue freed)")
+             IF s.hand[o][t] - s.fp[o][t] >= 2 \/ s.insync[t] THEN ""
+             ELSE "first pusher published the head before taking its +2: the item can be dequeued, run and release the last reference before the wakeup (rdar://6932776)")
 
 \* rest point of thread t: settle its hand on every live object
 RestOf(s, t) ==
@@ -174,12 +179,14 @@ RestOf(s, t) ==
         bad1 == {o \in Objs : s.alive[o] = "live" /\ res[o].hand # 0}
         bad2 == {o \in Objs : s.alive[o] = "live" /\ s.strict[o] /\ res[o].parked # 0} IN
     Out([s EXCEPT !.hand = [o \in Objs |-> [s.hand[o] EXCEPT ![t] = res[o].hand]],
-                  !.parked = [o \in Objs |-> res[o].parked]],
+                  !.parked = [o \in Objs |-> res[o].parked],
+                  !.fp = [o \in Objs |-> [s.fp[o] EXCEPT ![t] = NoPush]]],
         IF bad1 # {} THEN "a thread left the library owing a reference: a role was established without its +2, or a reference was released twice"
         ELSE IF bad2 # {} THEN "a thread left the library still holding a reference of a serial queue: a +2 was never released (leak)"
         ELSE "")
+\* r.b = 2 (dispatch_sync_f) or 3 (dispatch_apply_f): the thread stays inside the call until its next "Rest"
 HSub(s, r) == LET x == RestOf(s, r.t) IN
-              Out([x.S EXCEPT !.busy[r.o] = @ + r.c], IF x.err # "" THEN x.err ELSE
+              Out([x.S EXCEPT !.busy[r.o] = @ + r.c, !.insync[r.t] = (r.b \in {2, 3})], IF x.err # "" THEN x.err ELSE
                   IF s.alive[r.o] = "live" THEN "" ELSE "submission to a disposed object")
 HEnd(s, r) == LET x == RestOf(s, r.t) IN Out([x.S EXCEPT !.busy[r.o] = @ - 1], x.err)
 HBusy(s, r) == LET x == RestOf(s, r.t) IN Out([x.S EXCEPT !.busy[r.o] = @ + r.a], x.err)
@@ -204,7 +211,8 @@ Handle(s, r) ==
       [] r.e = "Sub" -> HSub(s, r) [] r.e = "End" -> HEnd(s, r) [] r.e = "Busy" -> HBusy(s, r)
       [] r.e = "Fin" -> HFin(s, r) [] r.e = "Dtor" -> HDtor(s, r) [] r.e = "DisposeProbe" -> HProbe(s, r)
       [] r.e = "Idle" -> HIdle(s, r)
-      [] r.e \in {"Rest", "Start", "DataDtor"} -> RestOf(s, r.t)
+      [] r.e = "Rest" -> LET x == RestOf(s, r.t) IN Out([x.S EXCEPT !.insync[r.t] = FALSE], x.err)
+      [] r.e \in {"Start", "DataDtor"} -> RestOf(s, r.t)
       [] r.e = "Reset" -> Out(S0, "")
       [] OTHER -> Out(s, "")
 
